@@ -2,9 +2,9 @@ CONSTANTS
   Impl = "fixed"
   Closers = {"k1", "k2", "k3"}
   Graceful = {"k2", "k3"}
-  Workers = 0
+  Workers = 1
 SPECIFICATION Spec
-INVARIANTS EmitInitInv FinalSignalingClosed FinalConnectionClosed NoStateAfterClosed
+INVARIANTS EmitInitInv FinalSignalingClosed FinalConnectionClosed NoStateAfterClosed GracefulWaits
 PROPERTIES AllReturn
 ACTION_CONSTRAINT EmitEdge
 CHECK_DEADLOCK FALSE
